@@ -348,4 +348,91 @@ theorem late_member_catches_up (specs : List Spec) (msgs : List Msg) (hne : spec
   rw [← ht.1]; congr 1; omega
 
 
+/-! ## monitor tie -/
+
+theorem rel_run (specs : List Spec) (acts : List Act) :
+    Rel specs (run specs acts) ((run specs acts).log.foldl (monStep specs) {}) :=
+  run_induction specs (fun s => Rel specs s (s.log.foldl (monStep specs) {}))
+    (by simp [Rel, monStep]) (fun s a h => rel_step specs s a h) acts
+
+theorem histOf_append (a b : List LogEv) : histOf (a ++ b) = histOf a ++ histOf b := by
+  simp [histOf]
+
+/-- the history is exactly what `Receive` was handed, in order -/
+theorem hist_eq_histOf (specs : List Spec) (acts : List Act) :
+    (run specs acts).hist = histOf (run specs acts).log ∧
+    ((run specs acts).sig = some false → (run specs acts).initRunning = false) ∧
+    (∀ k, (run specs acts).out = some (.errInitiate k) → (run specs acts).initRunning = false) := by
+  apply run_induction specs (fun s => s.hist = histOf s.log ∧ (s.sig = some false → s.initRunning = false) ∧
+    (∀ k, s.out = some (.errInitiate k) → s.initRunning = false))
+  · simp [histOf]
+  · intro s a ⟨h1, h2, h3⟩
+    unfold step doInitRet
+    cases a <;> simp only [] <;> (repeat' split) <;>
+      simp_all [histOf_append, histOf]
+
+theorem isPrefix_append [DecidableEq α] (a l : List α) : isPrefix a (a ++ l) = true := by
+  induction a with
+  | nil => rfl
+  | cons x r ih => simp [isPrefix, ih]
+
+/-- what the driver's monitor evaluates on an observation, as a predicate on a machine state:
+    the log automaton accepts, the history is a prefix of the delivered sequence, the visible
+    history is exactly what was received, the terminal outcome is consistent with the log. -/
+def holdsAll (specs : List Spec) (delivered : List Msg) (s : St) : Bool :=
+  holdsLog specs delivered s.log && decide (s.hist = histOf s.log) &&
+  (match s.out with
+   | some o => outcomeOk specs s.log o
+   | none => true)
+
+/-- **holds_model**: the monitor accepts the model under EVERY schedule and for every chain —
+    correspondence on outputs plus this theorem transfer the property to the implementation. -/
+theorem holds_model (specs : List Spec) (hne : specs ≠ []) (acts : List Act) :
+    holdsAll specs (deliveredActs acts) (run specs acts) = true := by
+  obtain ⟨r1, r2, r3, r4, r5, r6, r7, r8, r9⟩ := rel_run specs acts
+  obtain ⟨refused, hd, _, _⟩ := no_message_lost specs acts
+  obtain ⟨hh, hs, he⟩ := hist_eq_histOf specs acts
+  obtain ⟨hcur, hout⟩ := terminal_outcomes specs hne acts
+  unfold holdsAll holdsLog
+  simp only [Bool.and_eq_true, decide_eq_true_eq]
+  refine ⟨⟨⟨r1, ?_⟩, hh⟩, ?_⟩
+  · rw [r6, hd, List.append_assoc]; exact isPrefix_append _ _
+  · cases ho : (run specs acts).out with
+    | none => rfl
+    | some o =>
+      have ht := hout o ho
+      simp only [outcomeOk]
+      have hov : (∀ k, o ≠ .final k) → (∀ k, o ≠ .errNext k) →
+          ((run specs acts).log.foldl (monStep specs) {}).over = false := by
+        intro n1 n2
+        cases hb : ((run specs acts).log.foldl (monStep specs) {}).over
+        · rfl
+        · rcases r7.1 hb with ⟨j, hj⟩ | ⟨j, hj⟩
+          · rw [ho] at hj; exact absurd (Option.some.inj hj) (n1 j)
+          · rw [ho] at hj; exact absurd (Option.some.inj hj) (n2 j)
+      cases o with
+      | final k =>
+        simp only at ht
+        have hv : ((run specs acts).log.foldl (monStep specs) {}).over = true := r7.2 (Or.inl ⟨k, ho⟩)
+        have hk : k = ((run specs acts).log.foldl (monStep specs) {}).k := ht.1.trans r2.symm
+        rw [hv]
+        simp only [Bool.true_and, Bool.and_eq_true, decide_eq_true_eq, Bool.not_eq_true']
+        exact ⟨⟨hk, ht.2.1⟩, ht.2.2⟩
+      | errNext k =>
+        simp only at ht
+        have hv : ((run specs acts).log.foldl (monStep specs) {}).over = true := r7.2 (Or.inr ⟨k, ho⟩)
+        have hk : k = ((run specs acts).log.foldl (monStep specs) {}).k := ht.1.trans r2.symm
+        rw [hv]
+        simp only [Bool.true_and, Bool.and_eq_true, decide_eq_true_eq]
+        exact ⟨hk, ht.2⟩
+      | errInitiate k =>
+        simp only at ht
+        have hk : k = ((run specs acts).log.foldl (monStep specs) {}).k := ht.1.trans r2.symm
+        rw [hov (by simp) (by simp), r4, he k ho]
+        simp only [Bool.not_false, Bool.true_and, Bool.and_eq_true, decide_eq_true_eq, Bool.and_true]
+        exact ⟨hk, ht.2⟩
+      | ctx =>
+        rw [hov (by simp) (by simp)]; rfl
+
+
 end KeepVerif.C15
